@@ -1612,16 +1612,20 @@ def remove_stns_sinex(sinex, sites):
         out.write(f"{solution_matrix_estimate[0]}\n")
         if solution_matrix_estimate[1].startswith('*'):
             out.write(f"{solution_matrix_estimate[1]}\n")
+        # Elements are stored under their own column number (PARA2+n): records
+        # that are all zero may be left out of the block, elements that are
+        # not given are zero
+        zero = '0.00000000000000e+00'
         for line in solution_matrix_estimate:
             if line.startswith(' '):
                 cols = line.split()
                 row = cols[0]
                 for i in range(2, len(cols)):
                     try:
-                        vcv[row].append(cols[i])
+                        vcv[row][int(cols[1]) + i - 2] = cols[i]
                     except KeyError:
-                        vcv[row] = []
-                        vcv[row].append(cols[i])
+                        vcv[row] = {}
+                        vcv[row][int(cols[1]) + i - 2] = cols[i]
         block_end = solution_matrix_estimate[-1]
         del solution_matrix_estimate
         sub_vcv = {}
@@ -1633,18 +1637,18 @@ def remove_stns_sinex(sinex, sites):
                     for j in range(i):
                         if j+1 not in skip:
                             try:
-                                sub_vcv[str(sub_row)].append(vcv[str(i)][j])
+                                sub_vcv[str(sub_row)].append(vcv[str(i)].get(j+1, zero))
                             except KeyError:
                                 sub_vcv[str(sub_row)] = []
-                                sub_vcv[str(sub_row)].append(vcv[str(i)][j])
+                                sub_vcv[str(sub_row)].append(vcv[str(i)].get(j+1, zero))
                 if matrix == 'upper':
                     for j in range(len(vcv)-(i-1)):
                         if j+i not in skip:
                             try:
-                                sub_vcv[str(sub_row)].append(vcv[str(i)][j])
+                                sub_vcv[str(sub_row)].append(vcv[str(i)].get(j+i, zero))
                             except KeyError:
                                 sub_vcv[str(sub_row)] = []
-                                sub_vcv[str(sub_row)].append(vcv[str(i)][j])
+                                sub_vcv[str(sub_row)].append(vcv[str(i)].get(j+i, zero))
         for i in range(1, len(sub_vcv)+1):
             para1 = '{:5d}'.format(i)
             if matrix == 'lower':
